@@ -31,12 +31,28 @@ class IntText:
 
 
 class Tok:
-    """unknown text without separators"""
-    EXCLUDES = set(' \n\t"\',[]{}:')
+    """unknown non-empty text that contains none of the characters in
+    `excl` (and, optionally, does not start with a digit or a dot)"""
+    EXCLUDES = frozenset(' \n\t\r\x0b\x0c"\',[]{}:')
 
-    def __init__(self, name, length):
+    def __init__(self, name, length, excl=None, first_nondigit=False):
         self.name = name
         self.length = length
+        self.excl = frozenset(excl) if excl is not None else Tok.EXCLUDES
+        self.first_nondigit = first_nondigit
+
+
+class NumText:
+    """decimal text 'ddd.ff' (nd digits after the point) of a non-negative
+    rational d; `length` is its (symbolic) number of characters"""
+
+    def __init__(self, d, nd, length):
+        self.d = d
+        self.nd = nd
+        self.length = length
+
+    def __repr__(self):
+        return 'NumText(%r)' % (self.d,)
 
     def __repr__(self):
         return 'Tok(%s)' % self.name
@@ -75,7 +91,7 @@ class SStr:
             return len(p)
         if isinstance(p, IntText):
             return p.width
-        return p.length
+        return p.length          # Tok / NumText
 
     def length(self, ops):
         tot = 0
@@ -162,10 +178,21 @@ def equals(a, b, ops):
                 pa.pop(0)
                 pb.pop(0)
                 continue
+            if len(pa) == 1 and len(pb) == 1 and not conds:
+                # two whole unknown words: their equality is one unknown
+                # boolean (symmetric), e.g. constrained by a precondition
+                n1, n2 = sorted([x.name, y.name])
+                return Sym(z3.Bool('streq!%s!%s' % (n1, n2)))
             raise Unsupported('comparison of distinct unknown tokens')
         # Tok vs literal / IntText
+        if isinstance(x, NumText) or isinstance(y, NumText):
+            if x is y:
+                pa.pop(0)
+                pb.pop(0)
+                continue
+            raise Unsupported('comparison of formatted numbers')
         t, o = (x, y) if isinstance(x, Tok) else (y, x)
-        if isinstance(o, str) and o and o[0] in Tok.EXCLUDES:
+        if isinstance(o, str) and o and o[0] in t.excl:
             return False          # tokens are non-empty and separator-free
         raise Unsupported('unknown token against known text')
     if pa or pb:
@@ -202,7 +229,10 @@ def _needle_ok(s, needle):
     for p in s.pieces:
         if isinstance(p, IntText) and any(ch.isdigit() for ch in needle):
             return False
-        if isinstance(p, Tok) and not (set(needle) & Tok.EXCLUDES):
+        if isinstance(p, NumText) and any(ch.isdigit() or ch == '.'
+                                          for ch in needle):
+            return False
+        if isinstance(p, Tok) and not (set(needle) & p.excl):
             return False
     return True
 
@@ -383,8 +413,111 @@ def _safe_edge(p, cs):
     if isinstance(p, IntText):
         return not any(ch.isdigit() for ch in cs)
     if isinstance(p, Tok):
-        return set(cs) <= Tok.EXCLUDES
+        return set(cs) <= p.excl
+    if isinstance(p, NumText):
+        return not any(ch.isdigit() or ch == '.' for ch in cs)
     return True
+
+
+def to_float(s, ops):
+    s = lift(s)
+    ps = s.pieces
+    if len(ps) == 1 and isinstance(ps[0], NumText):
+        return ps[0].d
+    if len(ps) == 1 and isinstance(ps[0], IntText):
+        n = ps[0].n
+        if isinstance(n, Sym):
+            return mk(z3.ToReal(n.t))
+        return Fraction(n)
+    if s.is_literal():
+        from .values import to_frac
+        try:
+            return to_frac(float(s.literal()))
+        except ValueError:
+            raise_('ValueError', 'could not convert string to float')
+    raise Unsupported('float() of %r' % (s,))
+
+
+def number_prefix(s, interp):
+    """re.search(r'^\\d+\\.?\\d*', s): the matched text or None.  Decided
+    for strings that start with a formatted number followed by something
+    that cannot continue the match, or with a token that cannot start one"""
+    s = lift(s)
+    if not s.pieces:
+        return None
+    p0 = s.pieces[0]
+    rest = s.pieces[1:]
+
+    def cannot_continue(q, after_point):
+        if isinstance(q, str):
+            return not (q[0].isdigit() or (q[0] == '.' and not after_point))
+        if isinstance(q, Tok):
+            return q.first_nondigit
+        return False
+    if isinstance(p0, str):
+        import re
+        if s.is_literal():
+            m = re.search(r'^\d+\.?\d*', p0)
+            return m.group() if m else None
+        m = re.search(r'^\d+\.?\d*', p0)
+        if m is None:
+            return None
+        if m.end() < len(p0):
+            return m.group()
+        raise Unsupported('number prefix continues into an unknown piece')
+    if isinstance(p0, Tok):
+        if p0.first_nondigit:
+            return None
+        raise Unsupported('token may start with a digit')
+    if isinstance(p0, IntText):
+        if not rest or cannot_continue(rest[0], False):
+            return SStr([p0])
+        raise Unsupported('integer text followed by possible digits')
+    if isinstance(p0, NumText):
+        if not rest or cannot_continue(rest[0], True):
+            return SStr([p0])
+        raise Unsupported('number text followed by possible digits')
+    raise Unsupported('number prefix of %r' % (p0,))
+
+
+def float_text(v, spec, interp):
+    """text of the non-negative real v under a format spec '.Nf'"""
+    import re
+    m = re.fullmatch(r'\.(\d+)f', spec)
+    if not m:
+        raise Unsupported('float format spec %r' % spec)
+    nd = int(m.group(1))
+    ctx = interp.ctx
+    from .values import z3real
+    t = z3real(v)
+    if not ctx.prove(t >= 0):
+        if ctx.branch(mk(t < 0)):
+            raise Unsupported('formatting a negative symbolic real')
+    d = ctx.fresh('fmt', 'real')
+    L = ctx.fresh('fmtlen', 'int')
+    half = z3.RealVal('1/%d' % (2 * 10 ** nd))
+    # correctly rounded decimal with nd fractional digits
+    ctx.atoms.facts.append(d >= 0)
+    ctx.atoms.facts.append(d - t <= half)
+    ctx.atoms.facts.append(t - d <= half)
+    ctx.atoms.facts.append(L >= nd + 2)
+    return SStr([NumText(Sym(d), nd, Sym(L))])
+
+
+def slice_sym(s, start, interp):
+    """s[start:] where start is a symbolic integer provably equal to the
+    total length of the first j pieces"""
+    import ast
+    s = lift(s)
+    ops = interp.ops
+    acc = 0
+    for j in range(len(s.pieces) + 1):
+        e = ops.equals(acc, start)
+        if e is True or (isinstance(e, Sym) and interp.ctx.prove(e.t)):
+            return simplify(SStr(s.pieces[j:]))
+        if j < len(s.pieces):
+            acc = ops.binop(ast.Add(), acc, s.plen(s.pieces[j]))
+    raise Unsupported('slice start is not at a piece boundary')
 
 
 def to_int(s, ops):
@@ -482,12 +615,18 @@ def format_(fmt, args, kwargs, interp):
         else:
             raise Unsupported('format field %r' % field)
         spec = spec or ''
+        if '{' in spec:
+            spec = spec.format(*[a for a in args if isinstance(a, (str, int))],
+                               **{k: v for k, v in kwargs.items()
+                                  if isinstance(v, (str, int))})
         if isinstance(val, (str, SStr)):
             if spec:
                 raise Unsupported('string format spec %r' % spec)
             out.append(val)
         elif isinstance(val, Sym) and val.kind == 'int':
             out.append(int_text(val, spec, interp))
+        elif isinstance(val, Sym) and val.kind == 'real':
+            out.append(float_text(val, spec, interp))
         elif isinstance(val, bool) or val is None:
             out.append(format(val, spec))
         elif isinstance(val, int):
